@@ -79,7 +79,11 @@ class ParserUtils:
             The bool value or None if it doesn't exist.
         """
         xsi_nil = attrs.get(QNames.XSI_NIL)
-        return xsi_nil == constants.XML_TRUE if xsi_nil else None
+        if not xsi_nil:
+            return None
+
+        # xs:boolean lexical space, whitespace is collapsed
+        return xsi_nil.strip() in (constants.XML_TRUE, "1")
 
     @classmethod
     def parse_var(
